@@ -3029,6 +3029,14 @@ impl SctpInner {
         let value_len = value.len();
         let chunk_len = CHUNK_HEADER_SIZE + value_len;
         let padding = (4 - (chunk_len % 4)) % 4;
+        // Control chunks are never fragmented: one that does not fit a single
+        // packet (e.g. the echo of an oversized peer HEARTBEAT or state cookie)
+        // is refused instead of being put on the wire above the path limit.
+        if SCTP_COMMON_HEADER_SIZE + chunk_len + padding > MAX_SCTP_PACKET_SIZE {
+            return Err(anyhow::anyhow!(
+                "SCTP control chunk does not fit the packet size limit"
+            ));
+        }
         let mut chunk_buf = BytesMut::with_capacity(chunk_len + padding);
 
         // Chunk
